@@ -162,9 +162,17 @@ func (flex *FlexEncoder03) encodeFlexFecPacket(fecPacketIndex uint32, mediaBaseS
 			tmpMediaPacketBuf = make([]byte, packetSize)
 		}
 
-		n, err := mediaPacket.MarshalTo(tmpMediaPacketBuf[:packetSize])
+		// Marshal header and payload separately: rtp.Packet.MarshalTo rejects a packet whose
+		// padding is carried inside the payload, and it leaves all padding octets but the
+		// last untouched, which would mix stale scratch data into the repair packet.
+		clear(tmpMediaPacketBuf[:packetSize])
+		n, err := mediaPacket.Header.MarshalTo(tmpMediaPacketBuf[:packetSize])
 		if n == 0 || err != nil {
 			return rtp.Packet{}, false
+		}
+		n += copy(tmpMediaPacketBuf[n:packetSize], mediaPacket.Payload)
+		if padding := packetSize - n; padding > 0 {
+			tmpMediaPacketBuf[packetSize-1] = byte(padding) //nolint:gosec // G115
 		}
 
 		// XOR the first 2 bytes of the header: V, P, X, CC, M, PT fields
